@@ -4,6 +4,7 @@ import (
 	"fmt"
 	"go/types"
 	"hash/fnv"
+	"time"
 
 	"verif/engine/smt"
 
@@ -23,9 +24,19 @@ func layoutID(layout string) string {
 
 // ParseOK / ParseInst: uninterpreted parse functions of the string, one pair per layout.
 func ParseOK(layout string, s *smt.Term) *smt.Term {
+	if s.Const {
+		_, err := time.Parse(layout, s.Str)
+		return smt.Bool(err == nil)
+	}
 	return smt.UF("tparse_ok_"+layoutID(layout), []string{"String"}, &smt.Term{K: smt.KBool}, s)
 }
 func ParseInst(layout string, s *smt.Term) *smt.Term {
+	if s.Const {
+		if t, err := time.Parse(layout, s.Str); err == nil {
+			return smt.BV(uint64(t.UnixNano()), 64)
+		}
+		return smt.BV(0, 64)
+	}
 	return smt.UF("tparse_ns_"+layoutID(layout), []string{"String"}, &smt.Term{K: smt.KBV, W: 64}, s)
 }
 
